@@ -56,3 +56,24 @@ pub proof fn lemma_id_of_inj(i: int, j: int)
 }
 
 } // verus!
+verus! {
+
+pub closed spec fn dfa_pool_view(p: DFAInternPool) -> Seq<DFA> { p.store@ }
+
+/// derived Default of DFAInternPool: an empty IndexSet
+impl Default for DFAInternPool {
+    #[verifier::external_body]
+    fn default() -> (r: DFAInternPool)
+        ensures dfa_pool_view(r) == Seq::<DFA>::empty()
+    { unimplemented!() }
+}
+
+/// Stand-in: DFA::check_ambiguity_best_effort (the ConflictingDescriptions / AmbiguousDFA search of
+/// dfa.rs) is not under contract here; DFA::from_regex only propagates its error.
+impl DFA {
+    #[verifier::external_body]
+    pub fn check_ambiguity_best_effort(&self) -> (r: Result<()>)
+    { unimplemented!() }
+}
+
+} // verus!
